@@ -456,7 +456,7 @@ static void perturb_schedule(Plan &p, Rng &r, bool invocation) {
 }
 
 // ------------------------------------------------------------ reference runs
-struct Ref { Res r; std::string sink; bool valid = false; };
+struct Ref { Res r; std::string sink; bool valid = false; mutable bool lines_checked = false, lines_ok = true; mutable std::string bad_line; };
 static std::map<uint64_t, Ref> g_refs;
 struct Probe { uint32_t nalloc, nread, nwrite; };
 static std::map<uint64_t, Probe> g_probes;
@@ -502,14 +502,14 @@ static Probe probe_counts(const Plan &p) {
 }
 
 // ------------------------------------------------------------ generators
-static const int ERR_WRITE[] = {ENOSPC, EIO, EPIPE, EBADF, EDQUOT, EFBIG};
+static const int ERR_WRITE[] = {ENOSPC, EIO, EPIPE, EBADF, EDQUOT, EFBIG, EINTR, EAGAIN};
 static const int PREFIXES[] = {0, 0, 1, 7, 63, 4095, 1 << 30};
 
 static FaultB gen_write_fault(Rng &r, uint32_t nwrite) {
 	FaultB f;
 	f.seam = "write";
 	f.index = (long)r.below(nwrite ? nwrite : 1);
-	f.err = ERR_WRITE[r.below(6)];
+	f.err = ERR_WRITE[r.below(8)];
 	f.prefix = PREFIXES[r.below(7)];
 	f.persistent = r.coin(1, 2);
 	return f;
@@ -653,7 +653,7 @@ static Plan space_plan(const std::string &name, uint64_t index, const std::strin
 		f.index = (long)(off / 6);
 		f.persistent = (off % 6) >= 3;
 		f.prefix = pf[off % 3];
-		f.err = ENOSPC;
+		f.err = ERR_WRITE[(off / 6 + off % 6) % 8];  // every errno class meets every position over the sweep
 	}
 	p.faults.push_back(f);
 	p.label = "space:" + name;
@@ -671,6 +671,24 @@ static std::string describe_diff(const std::string &a, const std::string &b) {
 	char buf[160];
 	snprintf(buf, sizeof buf, "reference %zu bytes, this run %zu bytes, first difference at byte %zu", a.size(), b.size(), i);
 	return buf;
+}
+
+// Lexical shape of a QBE IL module as cproc emits it: the cheapest part of "status 0 is never
+// returned with ... interleaved-with-diagnostic ... output".  Returns the first offending line.
+static bool il_lines_only(const std::string &out, std::string &bad) {
+	size_t p = 0;
+	while (p < out.size()) {
+		size_t n = out.find('\n', p);
+		std::string line = out.substr(p, n == std::string::npos ? std::string::npos : n - p);
+		p = n == std::string::npos ? out.size() : n + 1;
+		if (line.empty() || line[0] == '\t' || line[0] == '@' || line == "}") continue;
+		static const char *starts[] = {"export", "thread", "function", "data ", "type ", "section ", "common "};
+		bool ok = false;
+		for (const char *st : starts) if (line.compare(0, strlen(st), st) == 0) ok = true;
+		if (n == std::string::npos) { bad = "last line is not terminated: " + line.substr(0, 80); return false; }
+		if (!ok) { bad = line.substr(0, 100); return false; }
+	}
+	return true;
 }
 
 static Verdict evaluate(const Plan &p, const Outcome &o, const Ref &ref, const std::string *sink) {
@@ -735,6 +753,18 @@ static Verdict evaluate(const Plan &p, const Outcome &o, const Ref &ref, const s
 			v.sig = "status0-after-write-failure";
 			v.detail = "the output descriptor refused or dropped " + std::to_string(r.dropped) + " byte(s), cproc-qbe exited 0";
 			return v;
+		}
+		if (!p.pponly) {
+			// the fault-free reference run of this workload exited 0: its output must be IL and nothing else
+			std::string bad;
+			if (!ref.lines_checked) { ref.lines_ok = il_lines_only(ref.sink, ref.bad_line); ref.lines_checked = true; }
+			bad = ref.bad_line;
+			if (!ref.lines_ok) {
+				v.cls = "C03/status0-with-foreign-text";
+				v.sig = "status0-with-foreign-text";
+				v.detail = "exit 0, but the output contains a line that is not IL (diagnostic text in the module?): " + bad;
+				return v;
+			}
 		}
 		if (r.status == 0 && !same_out) {
 			v.cls = "C03/status0-with-damaged-output";
